@@ -286,7 +286,11 @@ def main(argv):
                 cases.append(c2)
     # ovni flush channel (single, set/unset): OF[ OF] pairs, double OF[, OF] alone
     for w, kind in ((["OF[", "OF]"], "pair"), (["OF[", "OF[", "OF]"], "fault-double-enter"), (["OF]"], "fault-unmatched-leave"),
-                    (["OF[", "OF]", "OF["], "cut-nolint")):
+                    (["OF[", "OF]", "OF["], "cut-nolint"),
+                    # the ovni model's own events need a thread that is not out of the CPU
+                    (["KCO", "OF[", "OF]", "KCI"], "state-out-of-cpu"), (["OF[", "KCO", "OF]", "KCI"], "state-out-of-cpu"),
+                    (["OF[", "KCO", "KCI", "OF]"], "pair"), (["KCO", "OB.", "KCI"], "state-out-of-cpu"),
+                    (["KCO", "OU[", "OU]", "KCI"], "state-out-of-cpu"), (["KCO", "OHp", "KCI", "OHr"], "state-out-of-cpu")):
         cases.append({"mc": "O", "kind": kind, "word": w, "lint": False})
     tcases = list(range(60 if quick else 1500))
     if chk.replay:
